@@ -147,6 +147,47 @@ func guardedByAll(b *ssa.BasicBlock, ok func(f flow.Fact) bool, depth int) bool 
 	return true
 }
 
+// hashableTest: the facts that establish that key holds a string, number, bool or nil: a successful type test of
+// it, a comparison with nil, or a boolean helper that answers true only under such a test of its argument.
+func hashableTest(key ssa.Value, depth int) func(f flow.Fact) bool {
+	return func(f flow.Fact) bool {
+		if !f.True {
+			return false
+		}
+		if ex, isEx := f.Cond.(*ssa.Extract); isEx && ex.Index == 1 {
+			if ta, isTA := ex.Tuple.(*ssa.TypeAssert); isTA && ta.CommaOk && ta.X == key && hashableBasic(ta.AssertedType) {
+				return true
+			}
+		}
+		if bo, isB := f.Cond.(*ssa.BinOp); isB && bo.Op == token.EQL && bo.X == key && ssau.IsNilConst(bo.Y) {
+			return true
+		}
+		if cl, isC := f.Cond.(*ssa.Call); isC && depth < 3 {
+			h := cl.Common().StaticCallee()
+			if h == nil || h.Blocks == nil || h.Signature.Results().Len() != 1 {
+				return false
+			}
+			for i, a := range cl.Common().Args {
+				if a != key || i >= len(h.Params) {
+					continue
+				}
+				test := hashableTest(h.Params[i], depth+1)
+				if trueImplies(h, 0, func(b *ssa.BasicBlock, extra []flow.Fact) bool {
+					for _, e := range extra {
+						if test(e) {
+							return true
+						}
+					}
+					return guardedByAll(b, test, 0)
+				}) {
+					return true
+				}
+			}
+		}
+		return false
+	}
+}
+
 func hashableBasic(t types.Type) bool {
 	switch u := t.Underlying().(type) {
 	case *types.Basic:
@@ -502,20 +543,7 @@ func C07(c *Ctx) {
 					}
 				}
 			}
-			ok2 := guardedByAll(in.Block(), func(f flow.Fact) bool {
-				if !f.True {
-					return false
-				}
-				if ex, isEx := f.Cond.(*ssa.Extract); isEx && ex.Index == 1 {
-					if ta, isTA := ex.Tuple.(*ssa.TypeAssert); isTA && ta.CommaOk && ta.X == key && hashableBasic(ta.AssertedType) {
-						return true
-					}
-				}
-				if bo, isB := f.Cond.(*ssa.BinOp); isB && bo.Op == token.EQL && bo.X == key && ssau.IsNilConst(bo.Y) {
-					return true
-				}
-				return false
-			}, 0)
+			ok2 := guardedByAll(in.Block(), hashableTest(key, 0), 0)
 			c.R.Check(ok2, "C07-R6", k, c.pos(in), "every way to this use passes a test that the key is a string, number, bool or nil", "a value of arbitrary dynamic type is used as a map key: an unhashable value (slice, map) panics at run time")
 		})
 	}
@@ -1775,86 +1803,144 @@ func nonNilEdges(v ssa.Value) []*ssa.BasicBlock {
 func c07Termination(c *Ctx) {
 	m := c.newMatchModel()
 	n := 0
-	for _, f := range m.fns {
-		ssau.Instrs(f, func(in ssa.Instruction) {
-			cl, ok := in.(*ssa.Call)
-			if !ok {
-				return
+	// handed: parameters of helpers that are given a bound value without being the place where a pattern is taken
+	// apart (no pattern of the caller ever arrives there): the bound value is judged where the helper passes it on
+	handed := map[*ssa.Parameter]bool{}
+	// boundDef: the definition of pat that is a value looked up in bindings (or such a value handed to a helper)
+	boundDef := func(pat ssa.Value) ssa.Value {
+		var bound ssa.Value
+		for _, d := range phiDefs(pat, nil, map[ssa.Value]bool{}) {
+			v := d
+			if ex, isEx := v.(*ssa.Extract); isEx && ex.Index == 0 {
+				v = ex.Tuple
 			}
-			sc := cl.Common().StaticCallee()
-			if sc == nil || !m.inSet[sc] {
-				return
+			if lk, isLk := v.(*ssa.Lookup); isLk && isBindingsT(lk.X.Type()) {
+				bound = d
 			}
-			// a recursive step: the callee leads back to this function
-			back := false
-			for _, g := range pkgClosure(sc) {
-				if g == f {
-					back = true
+			if pa, isP := v.(*ssa.Parameter); isP && handed[pa] {
+				bound = d
+			}
+		}
+		return bound
+	}
+	// guarded: the call cl, which uses the bound value as a pattern, cannot be reached when bound is a string that
+	// IsVariable — by a test in cl's function, or, for a value the function was handed, at every place that hands it in
+	var guarded func(cl ssa.CallInstruction, bound ssa.Value, depth int) bool
+	guarded = func(cl ssa.CallInstruction, bound ssa.Value, depth int) bool {
+		for _, r := range ssau.Referrers(bound) {
+			ta, isTA := r.(*ssa.TypeAssert)
+			if !isTA || !ta.CommaOk || !types.Identical(ta.AssertedType, types.Typ[types.String]) {
+				continue
+			}
+			var str, isStr ssa.Value
+			for _, r2 := range ssau.Referrers(ta) {
+				if ex, isEx := r2.(*ssa.Extract); isEx {
+					if ex.Index == 0 {
+						str = ex
+					} else {
+						isStr = ex
+					}
 				}
 			}
-			if !back {
-				return
+			if str == nil || isStr == nil {
+				continue
 			}
-			// the pattern operand: the first operand of empty-interface type
-			var pat ssa.Value
-			for i, p := range sc.Params {
-				if it, isI := p.Type().Underlying().(*types.Interface); isI && it.NumMethods() == 0 && i < len(cl.Common().Args) {
-					pat = cl.Common().Args[i]
-					break
-				}
-			}
-			if pat == nil {
-				return
-			}
-			// is it a value looked up in bindings?
-			var bound ssa.Value
-			for _, d := range phiDefs(pat, nil, map[ssa.Value]bool{}) {
-				v := d
-				if ex, isEx := v.(*ssa.Extract); isEx && ex.Index == 0 {
-					v = ex.Tuple
-				}
-				if lk, isLk := v.(*ssa.Lookup); isLk && isBindingsT(lk.X.Type()) {
-					bound = d
-				}
-			}
-			if bound == nil {
-				return
-			}
-			n++
-			key := fmt.Sprintf("%s: a bound value that is a variable string is not expanded again #%d", fname(blameCaller(f, m.fns)), n)
-			// the guard: bound.(string) and IsVariable of that string
-			okGuard := false
-			for _, r := range ssau.Referrers(bound) {
-				ta, isTA := r.(*ssa.TypeAssert)
-				if !isTA || !ta.CommaOk || !types.Identical(ta.AssertedType, types.Typ[types.String]) {
+			for _, r2 := range ssau.Referrers(str) {
+				iv, isC := r2.(*ssa.Call)
+				if !isC || iv.Common().StaticCallee() == nil || iv.Common().StaticCallee().Name() != "IsVariable" {
 					continue
 				}
-				var str, isStr ssa.Value
-				for _, r2 := range ssau.Referrers(ta) {
-					if ex, isEx := r2.(*ssa.Extract); isEx {
-						if ex.Index == 0 {
-							str = ex
-						} else {
-							isStr = ex
-						}
-					}
-				}
-				if str == nil || isStr == nil {
-					continue
-				}
-				for _, r2 := range ssau.Referrers(str) {
-					iv, isC := r2.(*ssa.Call)
-					if !isC || iv.Common().StaticCallee() == nil || iv.Common().StaticCallee().Name() != "IsVariable" {
-						continue
-					}
-					facts := []flow.Fact{{Cond: isStr, True: true}, {Cond: iv, True: true}}
-					if flow.InstrDominates(ta, cl) && !flow.ReachableUnder(ta.Block(), facts, cl.Block()) {
-						okGuard = true
-					}
+				facts := []flow.Fact{{Cond: isStr, True: true}, {Cond: iv, True: true}}
+				if flow.InstrDominates(ta, cl) && !flow.ReachableUnder(ta.Block(), facts, cl.Block()) {
+					return true
 				}
 			}
-			c.R.Check(okGuard, "C07-R9", key, c.pos(cl), "unreachable when the bound value is a string that IsVariable", "the value bound to a variable is matched as a pattern even when it is itself a variable string: a message value like \"?x\" bound to ?x is looked up again without consuming anything of the message, and the recursion ends with a fatal stack overflow that no recover can intercept")
-		})
+		}
+		pa, isP := bound.(*ssa.Parameter)
+		if !isP || depth > 3 || !handed[pa] {
+			return false
+		}
+		sites := sitesWithArgs(pa.Parent(), m.fns)
+		pi := paramIdx(pa)
+		for _, s := range sites {
+			if pi >= len(s.args) {
+				return false
+			}
+			b2 := boundDef(s.args[pi])
+			if b2 == nil {
+				continue // not a bound value at this site
+			}
+			if !guarded(s.site, b2, depth+1) {
+				return false
+			}
+		}
+		return len(sites) > 0
+	}
+	type step struct {
+		f     *ssa.Function
+		cl    *ssa.Call
+		bound ssa.Value
+	}
+	var steps []step
+	for changed := true; changed; {
+		changed = false
+		steps = nil
+		for _, f := range m.fns {
+			ssau.Instrs(f, func(in ssa.Instruction) {
+				cl, ok := in.(*ssa.Call)
+				if !ok {
+					return
+				}
+				sc := cl.Common().StaticCallee()
+				if sc == nil || !m.inSet[sc] {
+					return
+				}
+				// a recursive step: the callee leads back to this function
+				back := false
+				for _, g := range pkgClosure(sc) {
+					if g == f {
+						back = true
+					}
+				}
+				if !back {
+					return
+				}
+				// the pattern operand: the first operand of empty-interface type
+				var pat ssa.Value
+				var patParam *ssa.Parameter
+				for i, p := range sc.Params {
+					if it, isI := p.Type().Underlying().(*types.Interface); isI && it.NumMethods() == 0 && i < len(cl.Common().Args) {
+						pat = cl.Common().Args[i]
+						patParam = p
+						break
+					}
+				}
+				if pat == nil {
+					return
+				}
+				// is it a value looked up in bindings?
+				bound := boundDef(pat)
+				if bound == nil {
+					return
+				}
+				if !m.has(patParam, "P") {
+					// no pattern ever arrives at this parameter: the callee is a helper for bound values
+					if !handed[patParam] {
+						handed[patParam] = true
+						changed = true
+					}
+					return
+				}
+				steps = append(steps, step{f, cl, bound})
+			})
+		}
+	}
+	for _, st := range steps {
+		n++
+		key := fmt.Sprintf("%s: a bound value that is a variable string is not expanded again #%d", fname(blameCaller(st.f, m.fns)), n)
+		// the guard: bound.(string) and IsVariable of that string
+		okGuard := guarded(st.cl, st.bound, 0)
+		c.R.Check(okGuard, "C07-R9", key, c.pos(st.cl), "unreachable when the bound value is a string that IsVariable", "the value bound to a variable is matched as a pattern even when it is itself a variable string: a message value like \"?x\" bound to ?x is looked up again without consuming anything of the message, and the recursion ends with a fatal stack overflow that no recover can intercept")
 	}
 	if n == 0 {
 		c.R.Break("C07-R9: the matcher never uses a bound value as a pattern")
